@@ -3,6 +3,7 @@
 EXTENDS Framing
 Hostile == {<<>>, <<13>>, <<10>>, <<13, 10>>, <<0>>, <<255>>, <<36, 53, 13, 10>>, <<42, 49, 13, 10>>}
 kz == <<107, 13, 10, 0>>
+kbin == <<98, 105, 110, 255, 254, 128>>
 FrStreams ==
     { <<C("PING", <<>>)>>,
       <<C("SET", <<ka, <<13, 10>> >>), C("GET", <<ka>>)>>,
@@ -12,5 +13,10 @@ FrStreams ==
       <<C("SADD", <<ka, <<255, 254>> >>), C("SMEMBERS", <<ka>>), C("SCARD", <<ka>>)>>,
       <<C("ECHO", <<<<>>>>), C("GET", <<kb>>), C("NOSUCH", <<x>>)>>,
       <<C("GET", <<>>), C("INCR", <<ka>>), C("INCR", <<ka>>)>>,
-      <<C("NOSUCH", <<<<97, 13, 10, 98>>>>), C("PING", <<>>)>> }
+      <<C("NOSUCH", <<<<97, 13, 10, 98>>>>), C("PING", <<>>)>>,
+      \* names that are not valid UTF-8, through every command that hands a name back
+      <<C("SET", <<kbin, x>>), C("KEYS", <<W("*")>>), C("RANDOMKEY", <<>>), C("RENAME", <<kbin, <<195>> >>), C("KEYS", <<W("*")>>)>>,
+      <<C("HSET", <<ka, <<255>>, <<128>> >>), C("HKEYS", <<ka>>), C("HVALS", <<ka>>), C("HRANDFIELD", <<ka>>)>>,
+      <<C("SADD", <<ka, <<192, 128>> >>), C("SRANDMEMBER", <<ka>>), C("SPOP", <<ka>>)>>,
+      <<C("RPUSH", <<ka, <<237, 160, 128>> >>), C("LINDEX", <<ka, N(0)>>), C("LPOP", <<ka>>)>> }
 =============================================================================
